@@ -13,6 +13,7 @@ import (
 	"io"
 	"sort"
 	"strings"
+	"sync"
 
 	"github.com/bronlabs/bron-crypto/pkg/base"
 	"github.com/bronlabs/bron-crypto/pkg/base/serde"
@@ -34,6 +35,7 @@ type Read struct {
 // run with seed s is vh.NewRng(s, prop, "tape/"+label, id); two runs that differ only in
 // one party's label differ only in that party's randomness.
 type Tape struct {
+	mu    sync.Mutex // the library reads a caller's prng from several goroutines (sigand branches)
 	src   io.Reader
 	Bytes []byte // every byte served so far
 	Reads []Read
@@ -43,6 +45,8 @@ type Tape struct {
 func NewTape(src io.Reader) *Tape { return &Tape{src: src} }
 
 func (t *Tape) Read(p []byte) (int, error) {
+	t.mu.Lock()
+	defer t.mu.Unlock()
 	n, err := io.ReadFull(t.src, p)
 	t.Reads = append(t.Reads, Read{Off: len(t.Bytes), N: n, Tag: t.Mark})
 	t.Bytes = append(t.Bytes, p[:n]...)
